@@ -123,16 +123,16 @@ def r1_guard(ck, F, d):
         _q(ck, R, b, s, f"{d}/{n}")
 
 
-def _yield_leaves_no_state(ck, R, F, b, d, t_t, f_t):
+def _yield_leaves_no_state(ck, R, F, b, d, t_t, f_t, adt=None, skip=("cursor", "prefix")):
     """A call that yields an entry leaves nothing behind but the cursor position: a field that steers a branch of
     next() (an "exhausted" / fused flag is fine as such, C05-R2 accepts a later state that touches nothing) is, on
     the starts_with == true path, only ever re-stored with the value the constructor gave it. Otherwise the next call
     can stop — or skip — although the entry just yielded says nothing about the ones that follow (C05-27)."""
     from .c03 import mutated_fields
-    adt = "reader::prefix_iter::PrefixIter" if d == "fwd" else "reader::prefix_iter::RevPrefixIter"
+    adt = adt or ("reader::prefix_iter::PrefixIter" if d == "fwd" else "reader::prefix_iter::RevPrefixIter")
     bad, seen = [], 0
     for f in sorted(mutated_fields(F, adt)):
-        if f in ("cursor", "prefix") or _flag_switch(b, f) is None:
+        if f in skip or _flag_switch(b, f) is None:
             continue
         inits = {const_val(agg_field_expr(bb_, s, rv, f)) for bb_, s, rv in aggregates(F, adt)}
         for bb_, site, s_ in field_stores(F, adt, f):
@@ -142,7 +142,7 @@ def _yield_leaves_no_state(ck, R, F, b, d, t_t, f_t):
             v = const_val(bb_._expr_of_def((site, "assign", s_["rv"]))) if site.i is not None and "rv" in s_ else None
             if v is None or inits != {v}:
                 bad.append(f"{f} := {'<computed>' if v is None else v} (constructor: {sorted(map(str, inits))})")
-    ck.ob(R, f"yield-leaves-no-state/{d}", not bad, "on the starts_with == true path no branch-steering field of the iterator is stored with anything but its constructor value" + (f" — {bad}" if bad else f" ({seen} store(s) on that path)"), b)
+    ck.ob(R, f"yield-leaves-no-state/{d}", not bad, "on the membership-test == true path no branch-steering field of the iterator is stored with anything but its constructor value" + (f" — {bad}" if bad else f" ({seen} store(s) on that path)"), b)
 
 
 def _filter_idiom(ck, R, F, b, d, anchor):
